@@ -230,6 +230,15 @@ def check(run):
         run.broke('only %d sites surface a queued packet error (2 confirmed by hand: available, read_some_impl)' % n_eof)
     run.clause('R9 scatter reads deliver the segment bytes in order: a copy made per receive buffer reads from a source the loop advances (front-erase or running offset)')
     ncp = engines.copy_sources_advance(run, [f for f in fx.repo_functions() if q.top_function(fx, f).cls == T])
+    run.clause('R2 received and unsent stream data is discarded only by close(): closed writer sets of m_incoming_queue, m_reorder_buffer, m_outgoing_packets and m_queue_size (cancel() aborts operations, it does not touch the stream)')
+    engines.r2_writer_table(run, T + '::m_incoming_queue', {T + '::socket': 'move construction', T + '::close': 'the connection ends', T + '::read_some_impl': 'delivers the front', T + '::incoming_packet': 'appends in sequence'},
+                            required=[T + '::close', T + '::read_some_impl', T + '::incoming_packet'])
+    engines.r2_writer_table(run, T + '::m_reorder_buffer', {T + '::socket': 'move construction', T + '::close': 'the connection ends', T + '::incoming_packet': 'parks and releases out-of-order segments'},
+                            required=[T + '::close', T + '::incoming_packet'])
+    engines.r2_writer_table(run, T + '::m_outgoing_packets', {T + '::socket': 'move construction', T + '::close': 'the connection ends', T + '::packet_dropped': 'queues for retransmission', T + '::incoming_packet': 'retransmits on ACK'},
+                            required=[T + '::close', T + '::packet_dropped', T + '::incoming_packet'])
+    engines.r2_writer_table(run, T + '::m_queue_size', {T + '::socket': 'move construction', T + '::close': 'the connection ends', T + '::read_some_impl': 'bytes handed to the reader'},
+                            required=[T + '::close'])
     run.clause('scatter reads fill each user buffer from its start: the offset into the current buffer is re-assigned whenever the buffer cursor is stepped')
     npair = engines.cursor_offset_pairs(run, [f for f in fx.repo_functions() if q.top_function(fx, f).cls == T])
     if npair < 1:
